@@ -213,7 +213,16 @@ func NewBlockFromBytes(serializedBlock []byte) (*Block, error) {
 	}
 	// Only the bytes the block was decoded from are its serialization; any
 	// bytes that follow it in the caller's buffer are not part of it.
-	b.serializedBlock = serializedBlock[:len(serializedBlock)-br.Len()]
+	consumed := serializedBlock[:len(serializedBlock)-br.Len()]
+
+	// The decoder accepts encodings it does not itself produce (a token
+	// prefix with an empty category is dropped when the output is written
+	// back), so the input is kept as the cached serialization only when it
+	// has the length of the message's own encoding.  Otherwise Bytes
+	// serializes the message when it is first asked for.
+	if len(consumed) == b.msgBlock.SerializeSize() {
+		b.serializedBlock = consumed
+	}
 	return b, nil
 }
 
